@@ -57,15 +57,16 @@ def run(chk):
     E = SolveEnv(chk.repo)
     chk.files.update(E.w.files)
     VL = E.w.get(VAL, "ValidationLoss")
-    for aux in (False, True):
-        for es in ('symbolic', True, False):
-            cfg = {"own_param_and_obs_generators": aux, "early_stopping": str(es)}
+    for aux in ('none', 'both', 'param', 'obs'):
+        for es in (('symbolic', True, False) if aux in ('none', 'both') else ('symbolic',)):
+            cfg = {"own_generators": aux, "early_stopping": str(es)}
 
             def go(aux=aux, es=es):
                 loss = LossToken('vloss')
                 data = GenToken('vdata', E.main_batch)
-                pd = GenToken('vpdata', lambda n, s: {'nu': Sym('param_batch', n, s)}) if aux else None
-                od = GenToken('vodata', lambda n, s: {'pinn_in': Sym('obs_in', n, s), 'val': Sym('obs_val', n, s), 'eq_params': {}}) if aux else None
+                pd = GenToken('vpdata', lambda n, s: {'nu': Sym('param_batch', n, s)}) if aux in ('both', 'param') else None
+                od = GenToken('vodata', lambda n, s: {'pinn_in': Sym('obs_in', n, s), 'val': Sym('obs_val', n, s), 'eq_params': {}}) \
+                    if aux in ('both', 'obs') else None
                 es_v = Sym('es_switch') if es == 'symbolic' else es
                 v = VL.make(loss=loss, validation_data=data, validation_param_data=pd, validation_obs_data=od,
                             call_every=K('call_every'), early_stopping=es_v, patience=K('patience'),
@@ -74,10 +75,13 @@ def run(chk):
                 new, stop, value, update = freeze(v)(freeze(params))
                 # specification
                 d2, batch = data.get_batch()
-                if aux:
+                pd2 = od2 = None
+                if pd is not None:
                     pd2, pb = pd.get_batch()
+                    batch = batch.replace_fields({'param_batch_dict': pb})
+                if od is not None:
                     od2, ob = od.get_batch()
-                    batch = batch.replace_fields({'param_batch_dict': pb, 'obs_batch_dict': ob})
+                    batch = batch.replace_fields({'obs_batch_dict': ob})
                 total, _ = loss(params, batch)
                 if not same(fz(value), fz(total)):
                     raise Violation("validation loss", str(value)[:250], f"the loss on the module's own next batch: {str(total)[:200]}")
@@ -98,9 +102,10 @@ def run(chk):
                     raise Violation("stop request", str(stop), str(exp_stop))
                 if new.fields['validation_data'] != d2:
                     raise Violation("validation_data", str(new.fields['validation_data']), str(d2))
-                if aux and (new.fields['validation_param_data'] != pd2 or new.fields['validation_obs_data'] != od2):
-                    raise Violation("auxiliary validation generators", f"{new.fields['validation_param_data']} {new.fields['validation_obs_data']}",
-                                    f"{pd2} {od2}")
+                if new.fields['validation_param_data'] != pd2 or new.fields['validation_obs_data'] != od2:
+                    raise Violation("auxiliary validation generators", f"after the call: parameter generator {new.fields['validation_param_data']}, "
+                                    f"observation generator {new.fields['validation_obs_data']}",
+                                    f"each of the module's own generators advanced by its draw: {pd2}, {od2}")
                 for f_ in ('loss', 'call_every', 'early_stopping', 'patience'):
                     if not same(_norm(new.fields[f_]), _norm(v.fields[f_])):
                         raise Violation(f_, str(new.fields[f_]), "unchanged")
